@@ -35,6 +35,7 @@ type vBehav struct {
 type vWorld struct {
 	mu       sync.Mutex
 	behav    map[string]*vBehav
+	behavKey map[string]*vBehav // by process name / replica number (takes precedence)
 	alive    map[string]int
 	aliveKey map[string]int // by process name / replica number
 	startKey map[string]int
@@ -76,7 +77,7 @@ func vAt(proc string) string {
 }
 
 func vInit() *vWorld {
-	vW = &vWorld{behav: map[string]*vBehav{}, alive: map[string]int{}, aliveKey: map[string]int{}, startKey: map[string]int{}, starts: map[string]int{}, exits: map[string]int{},
+	vW = &vWorld{behav: map[string]*vBehav{}, behavKey: map[string]*vBehav{}, alive: map[string]int{}, aliveKey: map[string]int{}, startKey: map[string]int{}, starts: map[string]int{}, exits: map[string]int{},
 		stops: map[string]int{}, lastCode: map[string]int{}, byStop: map[string]bool{}, startEnv: map[string][]string{},
 		startDir: map[string]string{}, started: make(chan string, 64)}
 	VerifCommanderHook = func(p *Process) command.Commander { return vNewCmd(p) }
@@ -97,6 +98,17 @@ func (w *vWorld) b(name string) *vBehav {
 		return b
 	}
 	return &vBehav{untilStop: []bool{true}}
+}
+
+// bc: behaviour of a command (by replica key first, then by name)
+func (w *vWorld) bc(c *vCmd) *vBehav {
+	w.mu.Lock()
+	b, ok := w.behavKey[c.key]
+	w.mu.Unlock()
+	if ok {
+		return b
+	}
+	return w.b(c.name)
 }
 
 func vPick[T any](xs []T, k int, def T) T {
@@ -135,7 +147,7 @@ func (c *vCmd) id() string { return c.name + "#" + strconv.Itoa(c.attempt) }
 
 func (c *vCmd) Start() error {
 	w := vW
-	b := w.b(c.name)
+	b := w.bc(c)
 	if b.startErr {
 		verifEvent("startfail " + c.id())
 		return errors.New("exec: command not found")
@@ -170,7 +182,7 @@ func (c *vCmd) Start() error {
 // life is the environment: the child process itself.
 func (c *vCmd) life() {
 	w := vW
-	b := w.b(c.name)
+	b := w.bc(c)
 	byStop := false
 	if vPick(b.untilStop, c.attempt, false) {
 		<-c.stopCh
@@ -237,7 +249,7 @@ func (c *vCmd) Stop(sig int, parentOnly bool) error {
 	if !c.started {
 		return nil
 	}
-	if sig == 9 || !w.b(c.name).ignoreTerm {
+	if sig == 9 || !w.bc(c).ignoreTerm {
 		c.sigOnce.Do(func() { close(c.stopCh) })
 	}
 	return nil
@@ -255,7 +267,7 @@ func (c *vCmd) SetEnv(env []string)     { c.env = env }
 func (c *vCmd) SetDir(dir string)       { c.dir = dir }
 func (c *vCmd) Output() ([]byte, error) { return nil, nil }
 func (c *vCmd) StdoutPipe() (io.ReadCloser, error) {
-	p := &vPipe{cmd: c, lines: vW.b(c.name).lines}
+	p := &vPipe{cmd: c, lines: vW.bc(c).lines}
 	return p, nil
 }
 func (c *vCmd) StderrPipe() (io.ReadCloser, error) { return &vPipe{cmd: c}, nil }
